@@ -27,6 +27,9 @@ def pv_to_py(j):
         return tuple(xs) if j.get("tuple") else xs
     if j["t"] == "big":
         return np.zeros(int(j["n"]))
+    if j["t"] == "pyobj":
+        # values no HDF5 attribute can hold: a dictionary, a set, an arbitrary object, a function
+        return {"dict": {"a": 1}, "set": {1, 2}, "object": object(), "function": len}[j["v"]]
     if j["t"] == "ndarr":
         return np.array([sc_to_py(x) for x in j["v"]])
     return sc_to_py(j)
